@@ -30,6 +30,7 @@ F_otk = z3.Function("poly1305_otk", ISEQ, ISEQ, ISEQ)  # (key, nonce) -> one-tim
 F_poly = z3.Function("poly1305_tag", ISEQ, ISEQ, ISEQ)  # (one-time key, message) -> 16-byte tag
 F_chacha = z3.Function("chacha20_xor", ISEQ, ISEQ, I, ISEQ, ISEQ)  # (key, nonce, initial counter, data)
 F_zeros = z3.Function("zeros", I, ISEQ)
+F_modexp = z3.Function("modexp", I, I, I, I)  # pow(base, exponent, modulus): modular exponentiation as a function symbol
 TRUSTED_PURE = "pure-Python chacha20poly1305 package (ChaCha block function, Poly1305, pad16) as function symbols: poly1305_otk, poly1305_tag (16 bytes), chacha20_xor (length preserving), zeros(n)"
 
 TRUSTED = "symbolic crypto model: Ed25519/X25519/HKDF-SHA512/ChaCha20-Poly1305 as ideal function symbols (EUF-CMA, INT-CTXT, PRF not verified)"
@@ -246,6 +247,42 @@ def install(env):
     from cryptography.hazmat.primitives.ciphers.aead import ChaCha20Poly1305 as _CC
 
     env.stub(_CC, mk_aead)
+    # ---- hashlib.sha512 and three-argument pow (SRP)
+    import hashlib
+    import builtins
+
+    class HashObj(StubObj):
+        def __init__(self, data):
+            self.data = data
+
+        def m_update(self, it, more):
+            self.data = ops.mk_bytes(z3.Concat(bt(self.data), bt(more)), False)
+
+        def m_digest(self, it):
+            if isinstance(self.data, (bytes, bytearray)):
+                return hashlib.sha512(bytes(self.data)).digest()  # concrete input: the real digest
+            t = F_sha512(bt(self.data))
+            it.ctx.assume(z3.Length(t) == 64)
+            it.env.assumptions_used.add("SHA-512 as a function symbol (64-byte output; collision resistance not modelled)")
+            return mkb(t)
+
+    env.stub(hashlib.sha512, lambda it, data=b"", **kw: HashObj(data))
+
+    def _pow(it, base, exp, mod=None):
+        if mod is None or not any(isinstance(v, SV) for v in (base, exp, mod)):
+            if any(isinstance(v, SV) for v in (base, exp)):
+                raise Unsupported("two-argument pow with symbolic operands")
+            return it.native(builtins.pow, base, exp) if mod is None else it.native(builtins.pow, base, exp, mod)
+        b, e, m = ops.int_term(base), ops.int_term(exp), ops.int_term(mod)
+        it.require(m != 0, ValueError, "pow() 3rd argument cannot be 0")
+        it.ctx.assume(e >= 0)  # (negative exponents - modular inverses - are not modelled; listed as an assumption)
+        r = F_modexp(b, e, m)
+        it.ctx.assume(z3.And(r >= 0, z3.Or(r < m, m < 0)))
+        it.env.assumptions_used.add("pow(b, e, m) as a function symbol modexp with 0 <= result < m (exponents assumed non-negative)")
+        return ops.mk_int(r)
+
+    env.stub(builtins.pow, _pow)
+
     # ---- third-party pure-Python primitives (partial-tag open)
     import chacha20poly1305 as _pure
 
